@@ -187,6 +187,8 @@ def _inv(interp, env):
            ("sim_time_restored_to_end_of_step", ival(wn.sim_time) == ival(g.cur)),
            ("next_rule_instant_after_latest_event", z3.And(ri >= 1, ri * rts > ival(g.last), ival(g.last) >= ival(g.prev), ival(g.last) <= ival(g.cur))),
            ("next_due_control_not_earlier_than_latest_event", z3.Implies(cnt < n, ival(g.last) <= ival(g.cur) - _b_at(lst, cnt, "back")))]
+    if env.locals["first_step"] is True:
+        inv.append(("initial_tank_levels_untouched_on_the_first_step", z3.BoolVal(g.tank_time is None)))
     if n > 0:
         inv.append(("last_run_control_is_the_previous_list_entry",
                     z3.Implies(cnt > 0, z3.And(ival(g.last_back) == _b_at(lst, cnt - 1, "back"), ival(g.last_prio) == _b_at(lst, cnt - 1, "prio")))))
@@ -203,7 +205,7 @@ def _havoc(interp, env):
         wn.sim_time = p.fresh("sim_time", "int")
         g.nran, g.changed, g.last = p.fresh("nran", "int"), p.fresh("changed", "bool"), p.fresh("last", "int")
         g.last_back, g.last_prio = p.fresh("last_back", "int"), p.fresh("last_prio", "int")
-        g.tank_time = p.fresh("tank_time", "int") if g.tank_time is not None or True else None
+        g.tank_time = None if env.locals["first_step"] is True else p.fresh("tank_time", "int")
         g.batch_prio = None
     return ["cnt", heap]
 
@@ -258,7 +260,8 @@ def _case(first_step):
                     ("without_a_change_the_whole_step_is_taken_and_everything_due_was_handled",
                      z3.Implies(z3.Not(ch), z3.And(t2 == CUR, ival(g.nran) == n_due, ri * RTS > CUR))),
                     ("next_rule_instant_lies_after_the_accepted_time", z3.And(ri >= 1, ri * RTS > t2)),
-                    ("presolve_reference_point_removed", g.ref_set and g.ref_removed)]
+                    ("presolve_reference_point_removed", g.ref_set and g.ref_removed)] + (
+                       [("initial_tank_levels_untouched_on_the_first_step", g.tank_time is None)] if first_step else [])
         cx.ensure(post)
     return Case("first_step=%s" % first_step, build, crosscheck=False)
 
